@@ -2,8 +2,11 @@
 // C08 — threshold shares: what blsful contributes on top of vsss-rs.
 // A partial signature is the share's scalar times H(m) under the scheme's tag and carries the
 // share identifier; it verifies against the participant's own public-key share and against no
-// other participant's.  (Splitting, Lagrange recombination and the error cases of the combiner
-// are vsss-rs: assumed, L-VSSS; exercised on the real crate by the witness family.)
+// other participant's.  Recombination: every wrapper forwards ALL shares with their identifiers to
+// the vsss-rs combiner and tags the result with the common scheme; recombination in the exponent
+// is linear (proved, lib_shares.rs), so partial signatures / public-key shares of scalar shares
+// that recombine to x recombine to x*H(m) / x*G — the whole-key values.  That any t of n shares
+// produced by split recombine to the key is vsss-rs' Lagrange interpolation (assumed, L-LAGRANGE).
 // ---------------------------------------------------------------------------------------------
 pub fn c08_partial_signature_verifies_against_own_key_share(sks: &SecretKeyShare, scheme: SignatureSchemes, msg: &[u8])
     requires
@@ -64,4 +67,104 @@ pub fn c08_refusals(sks: &SecretKeyShare, msg: &[u8])
 {
     let r = sks.sign(SignatureSchemes::MessageAugmentation, msg);
     assert(r is Err);
+}
+
+/// what `SecretKeyShare::sign` returns for the scalar share f (its postcondition, as a predicate)
+pub open spec fn signed_by(ps: SignatureShare, f: SkShare, scheme: SignatureSchemes, m: Seq<u8>) -> bool {
+    sshare_scheme(ps) == scheme && share_scalar(f.val()) is Some && sshare_raw(ps).id() == f.id()
+        && sshare_raw(ps).val() == sig_enc(sig_mul(hp(m, scheme_dst(scheme)), share_scalar(f.val())->Some_0))
+}
+/// partial signatures of scalar shares that recombine to the key recombine to EXACTLY the signature
+/// the whole key produces under the same scheme (same group element, hence the same bytes: A-ENC)
+pub fn c08_partial_signatures_recombine_to_whole_key_signature(sk: &SecretKey, shares: &[SignatureShare], Ghost(f): Ghost<Seq<SkShare>>, scheme: SignatureSchemes, msg: &[u8])
+    requires
+        sk.0.val() != 0, scheme != SignatureSchemes::MessageAugmentation,
+        f.len() == shares@.len(),
+        forall|i: int| 0 <= i < f.len() ==> signed_by(#[trigger] shares@[i], f[i], scheme, msg@),
+        combined(f) == Some(sk.0),               // e.g. any t or more distinct shares of a split (L-LAGRANGE)
+{
+    let s = Signature::from_shares(shares);
+    let whole = sk.sign(scheme, msg);
+    proof {
+        let p = hp(msg@, scheme_dst(scheme));
+        let g = sshares_raw(shares@);
+        assert(comb_accepts(f));
+        assert(sig_shares_of(f, g, p));
+        lemma_combine_linear_sig(f, g, p);
+        assert(sshares_one_scheme(shares@));
+    }
+    assert(s is Ok && whole is Ok);
+    assert(sig_scheme(s->Ok_0) == scheme && sig_point(s->Ok_0) == sig_point(whole->Ok_0));
+    assert(s->Ok_0 == whole->Ok_0);
+}
+
+/// public-key shares of scalar shares that recombine to the key recombine to its public key
+pub fn c08_public_key_shares_recombine(sk: &SecretKey, shares: &[PublicKeyShare], Ghost(f): Ghost<Seq<SkShare>>)
+    requires
+        f.len() == shares@.len(),
+        forall|i: int| 0 <= i < f.len() ==> share_scalar((#[trigger] f[i]).val()) is Some && shares@[i].0.id() == f[i].id()
+            && shares@[i].0.val() == pk_enc(pk_mul(pk_of(1), share_scalar(f[i].val())->Some_0)),     // what SecretKeyShare::public_key returns
+        combined(f) == Some(sk.0),
+{
+    let r = PublicKey::from_shares(shares);
+    let pk = sk.public_key();
+    proof {
+        assert(pk_shares_of(f, pkshares_raw(shares@), pk_of(1)));
+        lemma_combine_linear_pk(f, pkshares_raw(shares@), pk_of(1));
+    }
+    assert(r is Ok && r->Ok_0.0 == pk.0);
+}
+
+/// split then combine: all n shares, and (L-LAGRANGE) any selection of at least t distinct ones,
+/// give back the key; parameters outside 2 <= t <= n <= 255 are refused
+pub fn c08_split_then_combine(sk: &SecretKey, t: usize, n: usize, rng: ChaCha20Rng, Ghost(sub): Ghost<Seq<SecretKeyShare>>, Ghost(pos): Ghost<Seq<int>>)
+{
+    let r = sk.split_with_rng(t, n, rng);
+    assert((r is Ok) == (2 <= t <= n <= 255));
+    match r {
+        Ok(shares) => {
+            assert(shares@.len() == n);
+            proof {
+                let all = skshares_raw(shares@);
+                let id = Seq::new(all.len(), |i: int| i);
+                assert(picks(all, all, id));
+                axiom_interpolation(all, sk.0, t as int, all, id);
+                if picks(skshares_raw(sub), all, pos) && sub.len() >= t {
+                    axiom_interpolation(all, sk.0, t as int, skshares_raw(sub), pos);
+                    assert(combined(skshares_raw(sub)) == Some(sk.0));
+                }
+            }
+            let c = SecretKey::combine(shares.as_slice());
+            assert(c is Ok && c->Ok_0.0 == sk.0);
+        }
+        Err(_) => {}
+    }
+}
+
+/// empty, single, duplicated-identifier, zero-identifier and mixed-scheme share sets are errors
+pub fn c08_bad_share_sets_are_errors(ss: &[SignatureShare], ps: &[PublicKeyShare], ks: &[SecretKeyShare])
+{
+    let a = Signature::from_shares(ss);
+    let b = PublicKey::from_shares(ps);
+    let c = SecretKey::combine(ks);
+    assert(ss@.len() < 2 ==> a is Err);
+    assert(ps@.len() < 2 ==> b is Err);
+    assert(ks@.len() < 2 ==> c is Err);
+    // mixed schemes
+    assert((exists|i: int| 0 <= i < ss@.len() && sshare_scheme(#[trigger] ss@[i]) != sshare_scheme(ss@[0])) ==> a is Err);
+    // a zero identifier or a repeated identifier anywhere
+    assert(a is Ok ==> ids_ok(comb_ids(sshares_raw(ss@))));
+    assert(b is Ok ==> ids_ok(comb_ids(pkshares_raw(ps@))));
+    assert(c is Ok ==> ids_ok(comb_ids(skshares_raw(ks@))));
+    assert forall|i: int| 0 <= i < ss@.len() && a is Ok implies sshare_raw(#[trigger] ss@[i]).id() != 0 by {
+        assert(comb_ids(sshares_raw(ss@))[i] == sshare_raw(ss@[i]).id());
+    }
+    assert forall|i: int, j: int| 0 <= i < j < ss@.len() && a is Ok implies sshare_raw(#[trigger] ss@[i]).id() != sshare_raw(#[trigger] ss@[j]).id() by {
+        assert(comb_ids(sshares_raw(ss@))[i] == sshare_raw(ss@[i]).id());
+        assert(comb_ids(sshares_raw(ss@))[j] == sshare_raw(ss@[j]).id());
+    }
+    // use-time validation (C16): every payload decoded with the checked decoder
+    assert forall|i: int| 0 <= i < ss@.len() && a is Ok implies <Sig as ShareTarget>::dec_of(sshare_raw(#[trigger] ss@[i]).val()) is Some by {
+        assert(sshares_raw(ss@)[i].sdl() is Some);
+    }
 }
